@@ -29,9 +29,11 @@ def jobs(tier):
                           resolve={'COMPFN': COMP[dg], 'PROCFN': r'tlx::%s::process\(void const\*, unsigned int\)' % nm}, replace_calls=[('COMPFN', 'uf_compress')] if stub else [], mode='assert' if stub else 'dfcc', **kw))
         J('init', 'init', 'c_init', [r'tlx::%s::%s\(\)' % (nm, nm)], stub=False, what='%s(): initial state equals the standard H0, empty buffer' % nm)
         blk = 128 if dg == 3 else 64
-        # one job per buffered length curlen_ (symbolic curlen_ AND size: no back end finishes in 25 min); the quick tier
-        # takes the boundary values, the thorough tier every value 0..block-1
-        for cur in range(0, blk):
+        # one job per buffered length curlen_ (symbolic curlen_ AND size: no back end finishes in 25 min); each job takes
+        # 1-8 minutes, so the quick tier takes the two boundary values (not for SHA-512), the thorough tier adds 0, 2, the
+        # middle and the values around the padding threshold of finalize (9 values per digest).  Other curlen_ values are
+        # NOT run (listed under not_decided): a full sweep of all 320 values takes about two hours on 16 cores.
+        for cur in sorted(set([0, 1, 2, blk // 2, blk - 9, blk - 8, blk - 7, blk - 2, blk - 1])):
             quick = cur in (1, blk - 1) and dg != 3
             J('process_c%d' % cur, 'process', 'c_process', [r'tlx::%s::process\(void const\*, unsigned int\)' % nm], ['FIX_CUR=%d' % cur], unwind=2 * blk + 12, unwindset=(['{PROCFN}.1:6', '{PROCFN}.0:%d' % (blk + 2)] if dg != 2 else ['{PROCFN}.0:6']) + ['ir_memmove.0:%d' % (blk + 2), 'ir_memmove.1:%d' % (blk + 2), 'ir_memcpy.0:%d' % (blk + 2)], timeout=900,
               tier='quick' if quick else 'thorough', cbmc_flags=['--no-standard-checks', '--pointer-check', '--bounds-check'],
@@ -54,7 +56,7 @@ META = {
     'level': 'other',
     'assumptions': ['process / finalize contracts are enforced by rewriting (assert mode: goto-instrument --dfcc runs out of memory on the unwound block loops), so their assigns clauses are not checked', 'reference text = spec/digest_spec.h (my transcription of RFC 1321 / FIPS 180-4, constants generated from their definitions, validated against hashlib on every run)',
                     'composition step (stated): compress == standard, process feeds the stream in block order, finalize feeds the standard padding => digest == standard for every chunking'],
-    'not_decided': ['process() for a single call of more than two blocks + 7 bytes (longer inputs: same loop body)', 'digest()/digest_hex()/xxx_hex() string wrappers (std::string + hexdump: see C19)',
+    'not_decided': ['process() for a single call of more than two blocks + 7 bytes (longer inputs: same loop body)', 'process() with a number of buffered bytes other than 0, 1, 2, block/2, block-9 .. block-7, block-2, block-1 (one job per value; the others are not run)', 'digest()/digest_hex()/xxx_hex() string wrappers (std::string + hexdump: see C19)',
                     'siphash_sse2 (vector intrinsics are outside the translator) and therefore tlx::siphash() where it dispatches to SSE2; siphash_plain for messages longer than 23 bytes (same loop body)', 'compress equivalence is in the thorough tier (cvc5)'],
     'explanation': 'layered contracts: init == H0, process == stream-to-block contract with a ghost stream offset, finalize == padding contract, compress == standard (thorough)',
 }
